@@ -38,6 +38,7 @@ type GenValidator struct {
 	JailedUntil time.Time // signing info of a jailed validator
 	Unstaking   bool
 	Completion  time.Time // completion time of an unstaking validator
+	Tombstoned  bool      // signing info of a jailed validator says tombstoned
 }
 
 // GenesisConfig is the harness description of a consistent genesis.
@@ -92,7 +93,7 @@ func (g GenesisConfig) AppState() []byte {
 		}
 		if v.Jailed {
 			val.Jailed = true
-			sinfos[v.Actor.AddrHex()] = posTypes.ValidatorSigningInfo{Address: v.Actor.Addr, StartHeight: 0, JailedUntil: v.JailedUntil}
+			sinfos[v.Actor.AddrHex()] = posTypes.ValidatorSigningInfo{Address: v.Actor.Addr, StartHeight: 0, JailedUntil: v.JailedUntil, Tombstoned: v.Tombstoned}
 		}
 		vals = append(vals, val)
 		total.Add(total, big.NewInt(v.Stake))
